@@ -70,7 +70,14 @@ def make_matrix(spec):
     d[d == 0] = 0.5
     mask = rs.uniform(size=(T, C)) < spec["density"]
     d = d * mask
-    m = sparse.csc_matrix(d)
+    fmt = spec["seed"] % 4
+    if fmt == 1:
+        m = sparse.csr_matrix(d)                      # other sparse formats / dtypes a caller may have stored
+    elif fmt == 2:
+        d = d.astype(np.float64)
+        m = sparse.csc_matrix(d)
+    else:
+        m = sparse.csc_matrix(d)
     chars = [chr(0x61 + k) for k in range(C - 1)] + ["​"]
     return m, chars, d
 
@@ -90,6 +97,8 @@ def make_layout(ids, nreg, filler):
 def same_matrix(a, b):
     if a is None or b is None:
         return a is b
+    if a.format != b.format:
+        return False
     a, b = sparse.csc_matrix(a), sparse.csc_matrix(b)
     return (a.shape == b.shape and a.dtype == b.dtype and np.array_equal(a.indptr, b.indptr)
             and np.array_equal(a.indices, b.indices) and np.array_equal(a.data, b.data))
@@ -191,7 +200,7 @@ def body_io(ctx, case):
               for floor in (None, case["floor"]):
                   got = tl.get_dense_logits() if floor is None else tl.get_dense_logits(floor)
                   f = -80 if floor is None else floor
-                  want = np.where(dense != 0, dense, np.float32(f))
+                  want = np.where(dense != 0, dense, dense.dtype.type(f))
                   ctx.check(got.shape == dense.shape and np.array_equal(got, want), "dense_reconstruction",
                             lambda: "line %r floor %r; " % (i, f) + desc())
               if dense.shape[0]:
